@@ -95,6 +95,81 @@ def patched_series(log: list):
         sym.SQUARED_SERIES.clear(); sym.SQUARED_SERIES.update(saved[1])
 
 
+ACTIVE_LOG = None   # the series-call log of the extraction in progress (set by `extract`)
+
+
+def _symnames(exprs):
+    if not exprs:
+        return set()
+    return set(v.name() for v in ca.symvar(ca.vertcat(*[ca.vec(ca.SX(e)) for e in exprs])))
+
+
+def _reachable_calls(log, exprs):
+    """indices of log entries whose placeholder occurs in `exprs`, transitively through call arguments"""
+    names = _symnames(exprs)
+    sel = set()
+    changed = True
+    while changed:
+        changed = False
+        for k, (sym, _, _, arg) in enumerate(log):
+            if k not in sel and sym.name() in names:
+                sel.add(k); changed = True
+                names |= _symnames([arg])
+    return sorted(sel)
+
+
+class FakeFunction:
+    """Stand-in for casadi.Function while a catalog entry is extracted with SERIES calls kept as calls:
+    the real constructor rejects expressions containing the call placeholders (free symbols), so the
+    wrapper keeps (inputs, outputs) and evaluates by substitution; every evaluation clones the series
+    calls made inside the function body with the substituted arguments.  Only the subset of the API
+    that cyecca's derive_* functions and the catalog use is provided."""
+
+    def __init__(self, name, ins, outs, *rest):
+        self._name = name
+        self._ins = [ca.SX(i) for i in ins]
+        self._outs = [ca.SX(o) for o in outs]
+        names = [r for r in rest if isinstance(r, (list, tuple))]
+        self._in_names = list(names[0]) if len(names) > 0 else ["i%d" % k for k in range(len(ins))]
+        self._out_names = list(names[1]) if len(names) > 1 else ["o%d" % k for k in range(len(outs))]
+        self._calls = _reachable_calls(ACTIVE_LOG, self._outs) if ACTIVE_LOG is not None else []
+
+    def name(self): return self._name
+    def n_in(self): return len(self._ins)
+    def n_out(self): return len(self._outs)
+    def name_in(self, i): return self._in_names[i]
+    def name_out(self, i): return self._out_names[i]
+    def size_in(self, i): return self._ins[i].shape
+    def size_out(self, i): return self._outs[i].shape
+
+    def call(self, args):
+        args = [ca.SX(a) for a in args]
+        args = [ca.reshape(a, i.shape) if a.shape != i.shape else a for a, i in zip(args, self._ins)]
+        olds, news = [], []
+        log = ACTIVE_LOG
+        for k in self._calls:
+            sym, table, key, arg = log[k]
+            new_arg = ca.substitute([arg], self._ins + olds, args + news)[0]
+            new_sym = ca.SX.sym("__call%d" % len(log))
+            log.append((new_sym, table, key, new_arg))
+            olds.append(sym); news.append(new_sym)
+        return ca.substitute(self._outs, self._ins + olds, args + news)
+
+    def __call__(self, *args):
+        res = self.call(list(args))
+        return res[0] if len(res) == 1 else tuple(res)
+
+
+@contextlib.contextmanager
+def patched_function():
+    real = ca.Function
+    ca.Function = FakeFunction
+    try:
+        yield
+    finally:
+        ca.Function = real
+
+
 def series_ident(key: str) -> str:
     if key in SERIES_IDENT:
         return SERIES_IDENT[key]
@@ -172,16 +247,24 @@ def extract(spec: Spec) -> dict:
     syms = []
     for nm, (r, c) in spec.inputs:
         syms.append(ca.SX.sym(nm, r, c))
+    global ACTIVE_LOG
     log: list = []
     if spec.calls:
-        with patched_series(log):
-            outs = spec.build(*syms)
+        ACTIVE_LOG = log
+        try:
+            with patched_series(log), patched_function():
+                outs = spec.build(*syms)
+        finally:
+            ACTIVE_LOG = None
     else:
         outs = spec.build(*syms)
     outs = [(n, ca.SX(e)) for n, e in outs]
+    # keep only the series calls the outputs actually depend on (others belong to function bodies
+    # that were cloned at their call sites and still mention the callee's private symbols)
+    log = [log[k] for k in _reachable_calls(log, [e for _, e in outs])]
     call_syms = [s for (s, _, _, _) in log]
     call_args = [a for (_, _, _, a) in log]
-    f = ca.Function("f", syms + call_syms, [e for _, e in outs] + call_args)
+    f = ca.Function("f", syms + call_syms, [e for _, e in outs] + call_args)   # the real constructor again
     nodes, outmap = _walk(f)
     n_in = len(syms)
     # rewrite call-symbol inputs into call nodes
